@@ -129,35 +129,50 @@ theorem patPropose_spec {cfg : PatCfg} {sp : Space} {f : Pos → Bool} (hgeo : c
           obtain ⟨a1, b1, c1⟩ := moveRandomLoop_spec (show moveRandomLoop rest0 = .ok (a.1, a.2) from hm)
           have ht0 := ht.suffix hs0
           exact ⟨a1.trans hs0, ht0.rnd _ b1, (ht0.feas _ true c1).symm, hpat⟩
-      · cases hp : s.pattern with
-        | nil => rw [hp] at h; simp at h
-        | cons q qs =>
-          rw [hp] at h
+      · cases hg : (if s.pattern = [] then generatePattern cfg s.tr.posCurrent rest0 else Except.ok (s.pattern, rest0)) with
+        | error e => rw [hg] at h; simp at h
+        | ok g =>
+          rw [hg] at h
           simp only at h
-          have hq : InSpace sp q := hpat q (by rw [hp]; simp)
-          have hqs : ∀ r ∈ qs, InSpace sp r := fun r hr => hpat r (by rw [hp]; exact List.mem_cons_of_mem _ hr)
-          cases haf : askFeas q rest0 with
-          | error e => rw [haf] at h; simp at h
-          | ok a =>
-            rw [haf] at h
+          have hgen : g.2 <:+ rest0 ∧ ∀ r ∈ g.1, InSpace sp r := by
+            by_cases hpe : s.pattern = []
+            · rw [if_pos hpe] at hg
+              exact generatePattern_spec hgeo hsp (ht.suffix hs0) (show generatePattern cfg s.tr.posCurrent rest0 = .ok (g.1, g.2) from hg)
+            · rw [if_neg hpe] at hg
+              simp only [Except.ok.injEq] at hg
+              subst hg
+              exact ⟨List.suffix_refl _, hpat⟩
+          obtain ⟨hsg, hpg⟩ := hgen
+          cases hp : g.1 with
+          | nil => rw [hp] at h; simp at h
+          | cons q qs =>
+            rw [hp] at h
             simp only at h
-            have e := askFeas_spec (show askFeas q rest0 = .ok (a.1, a.2) from haf)
-            have hs1 : a.2 <:+ Draw.unif x :: rest0 := (by rw [e]; exact List.suffix_cons _ _ : a.2 <:+ rest0).trans hs0
-            by_cases hok : a.1 = true
-            · simp only [hok, if_true, Except.ok.injEq, Prod.mk.injEq] at h
-              obtain ⟨rfl, rfl, rfl⟩ := h
-              have hfe : f q = true := by
-                have := (ht.suffix hs0).feas q a.1 (by rw [e]; simp); rw [← this]; exact hok
-              exact ⟨hs1, hq, hfe, hqs⟩
-            · simp only [hok, Bool.false_eq_true, if_false] at h
-              cases hmc : moveClimb cfg.geo (some q) (some 1) (Draw.unif x :: rest0).length a.2 with
-              | error e' => rw [hmc] at h; simp at h
-              | ok b =>
-                rw [hmc] at h
-                simp only [Except.ok.injEq, Prod.mk.injEq] at h
+            have hq : InSpace sp q := hpg q (by rw [hp]; simp)
+            have hqs : ∀ r ∈ qs, InSpace sp r := fun r hr => hpg r (by rw [hp]; exact List.mem_cons_of_mem _ hr)
+            have hsg0 : g.2 <:+ Draw.unif x :: rest0 := hsg.trans hs0
+            cases haf : askFeas q g.2 with
+            | error e => rw [haf] at h; simp at h
+            | ok a =>
+              rw [haf] at h
+              simp only at h
+              have e := askFeas_spec (show askFeas q g.2 = .ok (a.1, a.2) from haf)
+              have hs1 : a.2 <:+ Draw.unif x :: rest0 := (by rw [e]; exact List.suffix_cons _ _ : a.2 <:+ g.2).trans hsg0
+              by_cases hok : a.1 = true
+              · simp only [hok, if_true, Except.ok.injEq, Prod.mk.injEq] at h
                 obtain ⟨rfl, rfl, rfl⟩ := h
-                obtain ⟨a2, b2, c2⟩ := EvoRuns.moveClimb_good hgeo hsp (ht.suffix hs1) hmc
-                exact ⟨a2.trans hs1, b2, c2, hqs⟩
+                have hfe : f q = true := by
+                  have := (ht.suffix hsg0).feas q a.1 (by rw [e]; simp); rw [← this]; exact hok
+                exact ⟨hs1, hq, hfe, hqs⟩
+              · simp only [hok, Bool.false_eq_true, if_false] at h
+                cases hmc : moveClimb cfg.geo (some q) (some 1) (Draw.unif x :: rest0).length a.2 with
+                | error e' => rw [hmc] at h; simp at h
+                | ok b =>
+                  rw [hmc] at h
+                  simp only [Except.ok.injEq, Prod.mk.injEq] at h
+                  obtain ⟨rfl, rfl, rfl⟩ := h
+                  obtain ⟨a2, b2, c2⟩ := EvoRuns.moveClimb_good hgeo hsp (ht.suffix hs1) hmc
+                  exact ⟨a2.trans hs1, b2, c2, hqs⟩
     | climb _ _ => simp at h
     | dist _ _ => simp at h
     | rnd _ => simp at h
@@ -336,22 +351,57 @@ theorem C15_pattern_evaluate_skips_regeneration (cfg : PatCfg) (s : PatSt) (scor
   simp only [h2, List.isEmpty_nil, if_true]
   exact ⟨_, rfl, rfl, rfl, by simp⟩
 
-/-- … and `iterate` on an empty pattern list (no random restart at this step) raises IndexError -/
-theorem C15_pattern_iterate_raises_on_empty (cfg : PatCfg) (s : PatSt) (x : Rat) (rest : Tape)
-    (hp : s.pattern = []) (ht : s.tape = Draw.unif x :: rest) (hr : ¬ cfg.randRestP > x) :
-    patIterate cfg s = .error .indexError := by
-  unfold patIterate patPropose
-  simp [hp, ht, hr]
+/-- … and (after fix) `iterate` on an exhausted pattern list no longer raises: it regenerates the pattern around the current
+    position and takes its first entry (no random restart at this step) -/
+theorem C15_pattern_iterate_regenerates (cfg : PatCfg) (s : PatSt) (x : Rat) (rest : Tape)
+    (hp : s.pattern = []) (ht : s.tape = Draw.unif x :: rest) (hr : ¬ cfg.randRestP > x) (e : Err)
+    (h : patIterate cfg s = .error e) :
+    generatePattern cfg s.tr.posCurrent rest = .error e ∨
+    ∃ g, generatePattern cfg s.tr.posCurrent rest = .ok g ∧
+      (g.1 = [] ∧ e = .indexError ∨ ∃ q qs, g.1 = q :: qs ∧
+        (askFeas q g.2 = .error e ∨ ∃ t, askFeas q g.2 = .ok (false, t) ∧ moveClimb cfg.geo (some q) (some 1) s.tape.length t = .error e)) := by
+  unfold patIterate patPropose at h
+  simp only [hp, ht, hr, if_false, if_true] at h
+  cases hg : generatePattern cfg s.tr.posCurrent rest with
+  | error e' => rw [hg] at h; simp at h; left; rw [h]
+  | ok g =>
+    right
+    refine ⟨g, rfl, ?_⟩
+    rw [hg] at h
+    simp only at h
+    cases hp1 : g.1 with
+    | nil => rw [hp1] at h; simp at h; left; exact ⟨rfl, h.symm⟩
+    | cons q qs =>
+      right
+      refine ⟨q, qs, rfl, ?_⟩
+      rw [hp1] at h
+      simp only at h
+      cases haf : askFeas q g.2 with
+      | error e' => rw [haf] at h; simp at h; left; rw [h]
+      | ok a =>
+        rw [haf] at h
+        simp only at h
+        obtain ⟨ok, t⟩ := a
+        cases ok
+        · right
+          refine ⟨t, rfl, ?_⟩
+          simp only [Bool.false_eq_true, if_false] at h
+          cases hmc : moveClimb cfg.geo (some q) (some 1) (Draw.unif x :: rest).length t with
+          | error e' => rw [hmc] at h; simp at h; rw [ht, ← h]; exact hmc
+          | ok b => rw [hmc] at h; simp at h
+        · simp at h
 
-/-- the whole finding on one concrete run through the driver: 1-D space, `n_positions_ = 1`, one start-up position whose
+/-- the former finding on one concrete run through the driver: 1-D space, `n_positions_ = 1`, one start-up position whose
     score is nan, then nan for ever - `finish_initialization` builds a one-point pattern, the first iteration pops it, its
-    `evaluate` returns early, the second iteration raises IndexError -/
+    `evaluate` returns early, and the second iteration (which used to raise IndexError) regenerates the pattern and goes on -/
 def exSpace : Space := { names := ["x"], dims := [[0, 1, 2, 3, 4]] }
 def exCfg : PatCfg := { nPositions := 1, randRestP := 0, nDims := 1, geo := exSpace.geo }
 def exTape : Tape :=
   [.spiral [.fin 3], .spiral [.fin 1], .parents [0],     -- generate_pattern([2]): points [3], [1]; sample picks index 0
    .unif (1/2), .feas [3] true,                           -- first iterate: emits [3]
-   .unif (1/2)]                                           -- second iterate: the list is empty
+   .unif (1/2),                                           -- second iterate: the list is empty ...
+   .spiral [.fin 3], .spiral [.fin 1], .parents [1],      -- ... regenerated around the current position [2]; sample picks index 1
+   .feas [1] true]                                        -- emits [1]
 def exObj : Obj := fun _ _ _ => ({ score := .nan, metrics := [] }, 0)
 def exD : DState PatSt := { nInits := 1, bst := { initL := [[2]], tape := exTape } }
 
@@ -359,9 +409,9 @@ def isIndexError {α : Type} : Except Err α → Bool
   | .error .indexError => true
   | _ => false
 
-theorem C15_pattern_known_finding_witness :
-    isIndexError (searchCall (patBackend exCfg) exSpace exObj { nIter := 3, memory := .off } exD) = true ∧
-    (searchCall (patBackend exCfg) exSpace exObj { nIter := 2, memory := .off } exD).toOption.isSome = true := by
+theorem C15_pattern_former_finding_fixed :
+    (searchCall (patBackend exCfg) exSpace exObj { nIter := 3, memory := .off } exD).map (fun x => (x.1.posL, x.1.bst.tape.length))
+      = .ok ([[2], [3], [1]], 0) := by
   decide +kernel
 
 end GFO.PatternRuns
